@@ -22,7 +22,7 @@ import (
 
 var gzipBlocks = []string{"gzip", "gzip {\n\t\text *\n\t}", "gzip {\n\t\text .txt\n\t}", "gzip {\n\t\tnot /n\n\t}", "gzip {\n\t\tlevel 1\n\t}", "gzip {\n\t\tlevel 9\n\t}", "gzip {\n\t\tmin_length 10\n\t}", "gzip {\n\t\text *\n\t\tmin_length 64\n\t}"}
 
-var acceptEnc = []string{"", "gzip", "gzip;q=0", "br", "zstd, gzip", "identity", "*", "br, gzip", "gzip, br, zstd", "zstd"}
+var acceptEnc = []string{"", "gzip", "gzip;q=0", "gzip;Q=0", "br", "zstd, gzip", "identity", "*", "br, gzip", "gzip, br, zstd", "zstd"}
 
 type wcase struct {
 	Casketfile string `json:"casketfile"`
@@ -64,7 +64,7 @@ func offersGzip(ae string) bool {
 		q := "1"
 		for _, p := range f[1:] {
 			p = strings.TrimSpace(p)
-			if strings.HasPrefix(p, "q=") {
+			if strings.HasPrefix(strings.ToLower(p), "q=") { // (parameter names are case-insensitive)
 				q = p[2:]
 			}
 		}
@@ -140,7 +140,7 @@ func offersCoding(ae, coding string) bool {
 		}
 		q := 1.0
 		for _, p := range f[1:] {
-			if p = strings.TrimSpace(p); strings.HasPrefix(p, "q=") {
+			if p = strings.TrimSpace(p); strings.HasPrefix(strings.ToLower(p), "q=") {
 				fmt.Sscanf(p[2:], "%g", &q)
 			}
 		}
@@ -153,7 +153,7 @@ func offersCoding(ae, coding string) bool {
 
 func main() {
 	rep := kit.NewReport("C18", "exploration",
-		"8 gzip blocks x (probe responses: 5 statuses x Content-Type set/unset x Content-Length right/absent x 8 pre-set Content-Encodings x 3 ETag forms x 10 write/flush patterns; static files with every subset of .gz/.br/.zst siblings) x 10 Accept-Encoding values x 4 paths x GET/HEAD, each served by a gzip site and by the same site without gzip and compared; distinct_nontrivial = outcome classes")
+		"8 gzip blocks x (probe responses: 5 statuses x Content-Type set/unset x Content-Length right/absent x 8 pre-set Content-Encodings x 3 ETag forms x 10 write/flush patterns; static files with every subset of .gz/.br/.zst siblings) x 11 Accept-Encoding values x 4 paths x GET/HEAD, each served by a gzip site and by the same site without gzip and compared; distinct_nontrivial = outcome classes")
 	kit.Init()
 	kit.RegisterProbe()
 	kit.Log.Off.Store(true)
